@@ -205,3 +205,25 @@ Proof.
   constructor; [|constructor]. split; [apply re; discriminate|].
   apply nr_dir. constructor; [split; [apply re; discriminate|constructor]|constructor].
 Qed.
+
+(* ---------- the tar-stream source with AddRoot (Model/TarStream.v) ---------- *)
+From DS Require Import Model.TarStream.
+
+Theorem stream_addroot_proof : forall cs,
+  Forall (fun nc : bytes * node => real_elem (fst nc) /\ names_real (snd nc)) cs ->
+  stream_sees ReaderFixed true (members_of cs) = Some (NDir stream_root_meta [] cs, []).
+Proof.
+  intros cs Hcs. unfold stream_sees, reader_events.
+  pose proof (tar_sees_clean_proof (NDir stream_root_meta [] cs) [dot] (nr_dir _ _ _ Hcs)) as H.
+  specialize (H ltac:(discriminate)). exact H.
+Qed.
+
+Definition ex_stream_members : list (bytes * node) :=
+  ([([97], NFile ex_meta [] [1]); ([100], NDir ex_meta [] [([120], NFile ex_meta [] [])])])%N.
+
+Lemma stream_reads_first_refuted_proof :
+  stream_sees ReaderReadsFirst true (members_of ex_stream_members) =
+    Some (NDir stream_root_meta [] [([100], NDir ex_meta [] [([120], NFile ex_meta [] [])])]%N, []) /\
+  stream_sees ReaderReadsFirst true [] = None /\
+  stream_sees ReaderFixed true [] = Some (NDir stream_root_meta [] [], []).
+Proof. repeat split; vm_compute; reflexivity. Qed.
